@@ -1,6 +1,7 @@
 import GontainerModel.Props.C02
 #print axioms GM.C02.chains_pinned
 #print axioms GM.C02.resolve_classifies
+#print axioms GM.C02.resolve_records_dependency
 #print axioms GM.C02.args_order_preserved
 #print axioms GM.C02.fields_sorted_by_name
 #print axioms GM.C02.calls_order_preserved
